@@ -25,7 +25,7 @@ META = {
     "-n is a store_true option (default False) forwarded unchanged to Configuration.allow_negative_balances, the only escape atom; the balance set is built "
     "unconditionally for every asset inside ComputedData before any generator runs and the error reaches the top-level handler that exits non-zero; "
     "with -n the negative balance is reported: the Account Balances table of the full report writes one row per balance of the set whatever its sign.",
-    "restated": "RP2Decimal comparison operators quantise to 13 decimals; the parser's crypto-fee split keeps each row's exact instant (C11.e)",
+    "restated": "RP2Decimal comparison operators quantise to 13 decimals; the parser's crypto-fee split keeps each row's exact instant (C11.e); the running balance is built from the per-class flows of the replay (C07.a)",
     "not_decided": "Decimal.quantize semantics and stability of sorted() are trusted; run-time values.",
     "assumptions": ["Decimal.quantize rounds to the mask's exponent", "sorted() is stable"],
 }
